@@ -111,6 +111,41 @@ async fn main() {
             }
         }
     }
+    // ---- operations that FAIL processing must not move the acknowledged frontier: an author's two stored, unacknowledged
+    // operations; then invalid operations claiming that author arrive (forged signature, with and without a body, at a
+    // higher sequence number); restart; both stored operations must be replayed
+    for with_body in [false, true] {
+        use p2panda::operation::Extensions;
+        use p2panda_core::cbor::encode_cbor;
+        use p2panda_core::test_utils::TestLog;
+        n_eval += 1;
+        let db = dir.join(format!("f{}.sqlite", with_body as u8));
+        let url = format!("sqlite://{}?mode=rwc", db.display());
+        let topic = Topic::random();
+        let ext = Extensions::from_topic(topic);
+        let panda = TestLog::new();
+        let o0 = panda.operation(&encode_cbor(&"first").unwrap(), ext.clone());
+        let o1 = panda.operation(&encode_cbor(&"second").unwrap(), ext.clone());
+        let want = vec![hex(o0.hash.as_bytes()), hex(o1.hash.as_bytes())];
+        let forged = { let attacker = TestLog::new(); let body = if with_body { encode_cbor(&"forged").unwrap() } else { vec![] }; let mut op = attacker.operation(&body, ext.clone()); for _ in 0..7 { op = attacker.operation(&body, ext.clone()); } op.header.verifying_key = panda.author(); op };
+        {
+            let node = p2panda::builder().database_url(&url).ack_policy(AckPolicy::Explicit).spawn().await.unwrap();
+            let (tx, mut rx) = node.stream::<String>(topic).await.unwrap();
+            let imp = tx.import(futures_util::stream::iter(vec![o0, o1])).await.unwrap(); let _ = imp.await;
+            let mut seen = 0; while seen < 2 { match tokio::time::timeout(Duration::from_secs(10), rx.next()).await { Ok(Some(StreamEvent::Processed { .. })) => seen += 1, Ok(Some(_)) => {}, _ => break } }
+            let imp = tx.import(futures_util::stream::iter(vec![forged])).await.unwrap(); let _ = imp.await;
+            let _ = tokio::time::timeout(Duration::from_millis(500), rx.next()).await;
+        }
+        let node = p2panda::builder().database_url(&url).ack_policy(AckPolicy::Explicit).spawn().await.unwrap();
+        let (_tx, mut rx) = node.stream::<String>(topic).await.unwrap();
+        let mut got = vec![];
+        loop { match tokio::time::timeout(Duration::from_secs(3), rx.next()).await { Ok(Some(StreamEvent::Processed { operation, .. })) => got.push(hex(operation.id().as_bytes())), Ok(Some(StreamEvent::ReplayEnded)) => break, Ok(Some(_)) => {}, _ => break } }
+        if got == want { nonempty += 1; }
+        if got != want && reported.insert("unacknowledged-operation-not-replayed-after-restart") {
+            rp_core::report(true, "unacknowledged-operation-not-replayed-after-restart", json!({"stored_unacknowledged": 2, "then": format!("an invalid operation claiming the same author at seq 7 ({}) is imported and rejected", if with_body { "with a body" } else { "without a body" }), "restart": true}),
+                json!({"replayed": got.len(), "expected": 2}), &["acked::Acked::ack.ensures#ok_advances_to_pointwise_max", "acked::Acked::nacked_log_ranges.ensures#from_frontier_exactly_the_stored_operations_above_the_acknowledged_height"]);
+        }
+    }
     let _ = std::fs::remove_dir_all(&dir);
     println!("{}", json!({"summary": true, "function": "crash (kill between API calls) + restart on file-backed SQLite: p2panda/src/streams/{replay.rs replay_log_ranges, stream.rs, forge.rs} and the SQL stores, through the public Node API",
         "evaluations": n_eval, "distinct_nontrivial": nonempty, "exhaustive": true,
